@@ -7,9 +7,12 @@ Line-protocol driver for C16 (see `harness/src/props/c16.rs` for the implementat
   P h=<0|1> p=<hex utf-8>                         PathBufWrap::parse_path(p, hidden)
   S c=<flags|-> m=<METHOD> u=<uri path text> [r=<hex Range value>] [im=<tags>] [inm=<tags>]
     [ius=<off|bad>] [ims=<off|bad>]               one request to `Files::new("/", root)` on the fixed tree
+  T len=<n> cut=<k> [r=<hex Range value>]         NamedFile::open + into_response, file truncated to k bytes
+                                                  before the body stream is polled
 
 flags: h use_hidden_files, i index_file("index.html"), l show_files_listing,
-       r redirect_to_slash_directory, E use_etag(false), M use_last_modified(false), s sync reads
+       r redirect_to_slash_directory, E use_etag(false), M use_last_modified(false), s sync reads,
+       m mount at "/s" instead of "/"
 tags : comma separated from E (the file's etag, strong) W (same, weak) X ("xyz") V (W/"xyz")
        bad (unparsable item) * ; the single value `nonstr` is a header value with a byte ≥ 0x80
 dates: seconds relative to the file's modification time T0
@@ -20,7 +23,11 @@ open ActixModel.Util ActixModel.Files ActixModel.Range
 def bs (s : String) : Bytes := bytesOfString s
 
 /-- content of file `id` at index `i` (same formula in the harness) -/
-def contentByte (id i : Nat) : UInt8 := UInt8.ofNat ((i * 7 + id * 13 + (i / 251) * 3) % 256)
+def contentByte (id i : Nat) : UInt8 :=
+  let x := ((i + 1) * 2654435761 + id * 1013904223) % 4294967296
+  let x := x ^^^ (x >>> 15)
+  let x := (x * 2246822519) % 4294967296
+  UInt8.ofNat (x >>> 24)
 
 def fileContent (id len : Nat) : Bytes := (List.range len).map (contentByte id)
 
@@ -188,7 +195,18 @@ def runS (ws : List String) : String :=
              | some h => (bytesOfHex h).bind classifyRange) with
       | some (im, _), some (inm, hasInm), some ius, some ims, some range =>
         let path := urlPath raw
-        match serve cfg tree (method == "GET" || method == "HEAD") path (endsWithByte 0x2F path) with
+        -- flag m: mounted at "/s" (`ResourceDef::root_prefix("/s")` matches "/s" and "/s/…");
+        -- anything else falls to the app's default 404
+        let unprocessed : Option Bytes :=
+          if has 'm' then
+            if path == bs "/s" then some []
+            else if (bs "/s/").isPrefixOf path then some (path.drop 2)
+            else none
+          else some path
+        match unprocessed with
+        | none => plain "404" "-"
+        | some unprocessed =>
+        match serve cfg tree (method == "GET" || method == "HEAD") unprocessed (endsWithByte 0x2F path) with
         | .methodNotAllowed => plain "405" "MethodNotAllowed"
         | .badRequest e => plain "400" (showErr e)
         | .notFound => plain "404" "-"
@@ -207,11 +225,27 @@ def runS (ws : List String) : String :=
           showResp (fileContent id len) (intoResponse fmeta cond range)
       | _, _, _, _, _ => "badcase"
 
+/-- `T len=<n> cut=<k> [r=<hex>]`: `NamedFile::open` on an n-byte file, `into_response`, then the
+file is cut to k bytes before the body is read -/
+def runT (ws : List String) : String :=
+  let len := kvNat ws "len" 0
+  let cut := kvNat ws "cut" 0
+  if len > 200000 || cut > len then "badcase"
+  else
+    match (match kv ws "r" with
+           | none => some RangeHdr.absent
+           | some h => (bytesOfHex h).bind classifyRange) with
+    | none => "badcase"
+    | some range =>
+      let fmeta : FileMeta := { len := len, etag := some ⟨false, fileTag⟩, lastModified := some t0 }
+      showResp ((fileContent 50 len).take cut) (intoResponse fmeta {} range)
+
 def run (line : String) : String :=
   let ws := words line
   match ws with
   | "P" :: rest => runP rest
   | "S" :: rest => runS rest
+  | "T" :: rest => runT rest
   | _ => "badcase"
 
 end ActixModel.Drv.C16
